@@ -41,11 +41,35 @@ class ServerError(Exception):
     pass
 
 
+class MyStr(str):
+    pass
+
+
+class MyBytes(bytes):
+    pass
+
+
+def cfg5(cfg):
+    """(ver, cap, err[, handler kind, park])"""
+    return tuple(cfg) + (0, 0)[len(cfg) - 3:] if len(cfg) < 5 else tuple(cfg)
+
+
 class BinHandler:
-    """binary media handler (msgpack is not a dependency of the check)"""
+    """binary media handler (msgpack is not a dependency of the check).  serialize() returns
+    bytes (kind 0), a bytearray (2) or a memoryview over one (3), all allowed by
+    BinaryBaseHandlerWS; the buffers are registered so that the harness can change them later"""
+
+    def __init__(self, kind=0, bufs=None):
+        self.kind = kind
+        self.bufs = bufs if bufs is not None else []
 
     def serialize(self, media):
-        return str(media).encode()
+        raw = str(media).encode()
+        if self.kind == 0:
+            return raw
+        buf = bytearray(raw)
+        self.bufs.append(buf)
+        return buf if self.kind == 2 else memoryview(buf)
 
     def deserialize(self, payload):
         return int(bytes(payload))
@@ -99,7 +123,10 @@ class Session:
     def __init__(self, falcon, cfg, connect_ok, mw, route, client, fails):
         import falcon.asgi
         self.falcon = falcon
-        self.ver, self.cap, self.err_code = cfg
+        self.ver, self.cap, self.err_code, self.hk, self.park = cfg5(cfg)
+        self.bufs = []          # mutable buffers the application (or its media handler) owns
+        self.sent_events = []   # (trace index, event object, field, snapshot at the call)
+        self.send_gates = []
         self.loop = DetLoop()
         self.results = []
         self.pubs = []
@@ -138,7 +165,7 @@ class Session:
         app = falcon.asgi.App(middleware=[MW()] if mw else [])
         app.ws_options.max_receive_queue = self.cap
         app.ws_options.error_close_code = self.err_code
-        app.ws_options.media_handlers[falcon.WebSocketPayloadType.BINARY] = BinHandler()
+        app.ws_options.media_handlers[falcon.WebSocketPayloadType.BINARY] = BinHandler(self.hk, self.bufs)
         app.add_route('/r', Res())
         app.add_route('/nows', NoWs())
         self.app = app
@@ -165,9 +192,24 @@ class Session:
                 code = op[1][1]
             return await ws.close(code, 'bye' if op[2] else None)
         if k == 2:
-            return await ws.send_text(str(op[1][1]) if op[1][0] == 0 else 7)
+            if op[1][0] != 0:
+                return await ws.send_text(7)
+            t = str(op[1][1])
+            return await ws.send_text(MyStr(t) if op[1][2] == 1 else t)
         if k == 3:
-            return await ws.send_data(str(op[1][1]).encode() if op[1][0] == 0 else 'notbytes')
+            if op[1][0] != 0:
+                return await ws.send_data('notbytes')
+            raw = str(op[1][1]).encode()
+            kind = op[1][2]
+            if kind == 0:
+                pl = raw
+            elif kind == 1:
+                pl = MyBytes(raw)
+            else:
+                buf = bytearray(raw)
+                self.bufs.append(buf)
+                pl = buf if kind == 2 else memoryview(buf)
+            return await ws.send_data(pl)
         if k == 4:
             pt = falcon.WebSocketPayloadType.BINARY if op[1] else falcon.WebSocketPayloadType.TEXT
             return await ws.send_media(op[2], pt)
@@ -198,14 +240,68 @@ class Session:
                 self.pubs[-1] = 98
             try:
                 v = await self.do_op(ws, op)
+                self.scribble()
                 self.results.append([0, value_code(v)])
             except Exception as ex:
+                self.scribble()
                 self.results.append([1, exc_code(self.falcon, ex)])
                 if not catch:
                     self.cause = exc_code(self.falcon, ex)
                     raise
 
+    def scribble(self):
+        """the application reuses its buffers: every registered buffer is overwritten"""
+        for b in self.bufs:
+            b[:] = b'9' * len(b)
+
     # ---- the ASGI server
+    @staticmethod
+    def kind_of(x):
+        if type(x) is str or type(x) is bytes:
+            return 0
+        if isinstance(x, (str, bytes)):
+            return 1
+        if isinstance(x, bytearray):
+            return 2
+        if isinstance(x, memoryview):
+            return 3
+        return 99
+
+    @staticmethod
+    def content_of(x):
+        try:
+            return int(x) if isinstance(x, str) else int(bytes(x))
+        except Exception:
+            return -1
+
+    @staticmethod
+    def malformed(event):
+        """field types of the ASGI WebSocket send-side events (spec: HTTP & WebSocket, v2.x)"""
+        t = event.get('type')
+        if t == 'websocket.accept':
+            sp = event.get('subprotocol')
+            if sp is not None and type(sp) is not str:
+                return 'accept.subprotocol is %s' % type(sp).__name__
+            for h in event.get('headers', []):
+                if not (isinstance(h, (list, tuple)) and len(h) == 2 and type(h[0]) is bytes and type(h[1]) is bytes):
+                    return 'accept.headers entry %r' % (h,)
+        elif t == 'websocket.send':
+            has_t = event.get('text') is not None
+            has_b = event.get('bytes') is not None
+            if has_t == has_b:
+                return 'send: exactly one of text / bytes expected'
+            if set(event) - {'type', 'text', 'bytes'}:
+                return 'send: unexpected keys %r' % sorted(event)
+        elif t == 'websocket.close':
+            c = event.get('code', 1000)
+            if type(c) is not int:
+                return 'close.code is %s' % type(c).__name__
+            if 'reason' in event and event['reason'] is not None and type(event['reason']) is not str:
+                return 'close.reason is %s' % type(event['reason']).__name__
+        else:
+            return 'unknown event type %r' % (t,)
+        return None
+
     async def receive(self):
         f = self.loop.create_future()
         self.pulls.append(f)
@@ -218,15 +314,24 @@ class Session:
             sp = event.get('subprotocol')
             ev = [0, [] if sp is None else [int(sp[1:])], int('headers' in event)]
         elif t == 'websocket.send':
-            if event.get('text') is not None:
-                ev = [1, int(event['text'])]
-            else:
-                ev = [2, int(bytes(event['bytes']))]
+            field = 'text' if event.get('text') is not None else 'bytes'
+            x = event[field]
+            ev = [1 if field == 'text' else 2, self.content_of(x), self.kind_of(x)]
+            self.sent_events.append((len(self.trace), event, field, self.content_of(x)))
         elif t == 'websocket.close':
             ev = [3, event.get('code', 1000), int('reason' in event)]
         else:
             ev = [99, t]
+        bad = self.malformed(event)
+        if bad:
+            ev = [99, bad]
         self.trace.append([ev, k])
+        if k[0] == 0 and self.park:
+            # the server does not read the event at once: another task of the application
+            # runs meanwhile (and reuses its buffers)
+            g = self.loop.create_future()
+            self.send_gates.append(g)
+            await g
         if k[0] == 1:
             if len(k) > 1:
                 try:
@@ -284,6 +389,11 @@ class Session:
                     continue
                 if task.done():
                     break
+                sg = [f for f in self.send_gates if not f.done()]
+                if sg:
+                    self.scribble()
+                    sg[0].set_result(None)
+                    continue
                 self.quiesce(task)
                 g = [f for f in self.gates if not f.done()]
                 if g:
@@ -301,6 +411,10 @@ class Session:
                     ending = [1, exc_code(self.falcon, task.exception())]
                 else:
                     ending = [0]
+            for idx, event, field, snap in self.sent_events:
+                # the server reads the event only now: same content as when send() was called?
+                if self.content_of(event[field]) != snap and self.trace[idx][0][0] != 99:
+                    self.trace[idx][0][2] = 4
             left = [t for t in loop.tasks if not t.done() and t is not task]
             if self.cause is None:
                 cause = [self.route_kind, 0]
@@ -335,7 +449,7 @@ def run_real(falcon, case):
 # --------------------------------------------------------------------------- generators
 
 OPS_SMALL = [
-    [0, [0], 0], [1, [0], 0], [2, [0, 5]], [5], [9], [8, 2, 0], [8, 0, 403],
+    [0, [0], 0], [1, [0], 0], [2, [0, 5, 0]], [3, [0, 6, 2]], [4, 1, 7], [5], [9], [8, 2, 0], [8, 0, 403],
 ]
 
 
@@ -348,9 +462,9 @@ def gen_op(rng):
                                [1, 1015], [1, 1999], [1, 2000], [1, 1003], [1, 1007], [1, 1014], [2], [1, 0], [1, -5]]),
                 rng.choice([0, 0, 1])]
     if x < 0.42:
-        return [2, rng.choice([[0, rng.randint(1, 99)], [0, rng.randint(1, 99)], [1]])]
+        return [2, rng.choice([[0, rng.randint(1, 99), 0], [0, rng.randint(1, 99), 1], [1]])]
     if x < 0.50:
-        return [3, rng.choice([[0, rng.randint(1, 99)], [0, rng.randint(1, 99)], [1]])]
+        return [3, rng.choice([[0, rng.randint(1, 99), rng.randrange(4)], [0, rng.randint(1, 99), rng.randrange(4)], [1]])]
     if x < 0.56:
         return [4, rng.choice([0, 1]), rng.randint(1, 99)]
     if x < 0.68:
@@ -388,7 +502,8 @@ def gen_fails(rng):
 
 def gen_case(rng):
     ver = rng.choice(list(VERSIONS))
-    cfg = (ver, rng.choice([0, 1, 2, 4]), rng.choice([1011, 1011, 3011, 4000, 999, 1005, 1500]))
+    cfg = (ver, rng.choice([0, 1, 2, 4]), rng.choice([1011, 1011, 3011, 4000, 999, 1005, 1500]),
+           rng.choice([0, 0, 2, 3]), int(rng.random() < 0.35))
     connect_ok = int(rng.random() < 0.96)
     mw = gen_script(rng, rng.randint(1, 2)) if rng.random() < 0.2 else []
     x = rng.random()
@@ -405,9 +520,9 @@ def gen_case(rng):
 
 
 def wire_case(case):
-    (ver, cap, err), connect_ok, mw, route, client, fails = case
+    (ver, cap, err, hk, park), connect_ok, mw, route, client, fails = (cfg5(case[0]),) + tuple(case[1:])
     h, r = VERSIONS[ver]
-    return [1, MODEL_FIXED, [h, r, cap, err], connect_ok, mw, route, client, fails]
+    return [1, MODEL_FIXED, [h, r, cap, err, hk], connect_ok, mw, route, client, fails]
 
 
 EXC = {0: 'OperationNotAllowed', 1: 'WebSocketDisconnected', 2: 'PayloadTypeError', 3: 'ValueError',
@@ -433,9 +548,9 @@ def judge(ctx, model, cases, reals, tag):
     so, mo, po = [], [], []
     idx_m, idx_p = [], []
     for i, (case, real) in enumerate(zip(cases, reals)):
-        (ver, cap, err), connect_ok, mw, route, client, fails = case
+        (ver, cap, err, hk, park), connect_ok, mw, route, client, fails = (cfg5(case[0]),) + tuple(case[1:])
         h, r = VERSIONS[ver]
-        cfgw = [h, r, cap, err]
+        cfgw = [h, r, cap, err, hk]
         so.append([2, cfgw, real['trace'], real['ending'], real['handed']])
         ops = [o for o, _ in mw] + ([o for o, _ in route[1]] if route[0] == 0 else [])
         k = 0
@@ -452,10 +567,10 @@ def judge(ctx, model, cases, reals, tag):
                 k += 1
     wo, idx_w = [], []
     for i, (case, real) in enumerate(zip(cases, reals)):
-        (ver, cap, err), connect_ok, mw, route, client, fails = case
+        (ver, cap, err, hk, park), connect_ok, mw, route, client, fails = (cfg5(case[0]),) + tuple(case[1:])
         if connect_ok and real['ending'] != [2]:
             h, r = VERSIONS[ver]
-            wo.append([5, [h, r, cap, err], real['cause'][0], real['cause'][1], real['trace'][real['mark']:]])
+            wo.append([5, [h, r, cap, err, hk], real['cause'][0], real['cause'][1], real['trace'][real['mark']:]])
             idx_w.append(i)
     wres = model.run_many(wo) if wo else []
     souts = model.run_many(so)
@@ -466,7 +581,9 @@ def judge(ctx, model, cases, reals, tag):
         if o[0] != 1:
             bad.setdefault(i, []).append(('session', 'illegal ASGI session (send-side monitor)'))
         if o[1] != 1:
-            bad.setdefault(i, []).append(('features', 'accept headers / close reason sent to a server that does not support them'))
+            bad.setdefault(i, []).append(('features', 'malformed send() event: accept headers / close reason not supported by the server, '
+                                          "or a payload field that is not str / exactly bytes, or whose content changed after send() "
+                                          'was called (the event aliases a buffer the application still owns)'))
     for i, o in zip(idx_w, wres):
         if o != 1:
             bad.setdefault(i, []).append(('close-code', 'the close code sent by the application wrapper is not the one '
@@ -482,7 +599,7 @@ def judge(ctx, model, cases, reals, tag):
     corr = []
     model_results = [[r for r in m[0] if r != [2]] for m in mouts]
     for i, (case, real, m) in enumerate(zip(cases, reals, mouts)):
-        (ver, cap, err), connect_ok, mw, route, client, fails = case
+        (ver, cap, err, hk, park), connect_ok, mw, route, client, fails = (cfg5(case[0]),) + tuple(case[1:])
         ops = [o for o, _ in mw] + ([o for o, _ in route[1]] if route[0] == 0 else [])
         key = (tag, repr(case))
         ctx.note_case(key, len(real['trace']) > 0 and len(real['results']) > 0)
@@ -555,8 +672,8 @@ def small_cases(depth, full):
     out = []
     clients = [[[2, 1001]], [[0, 5], [2]], [[1, 6], [0, 7], [2, 1000]]]
     fails_all = [[]] + [[[0]] * i + [k] for i in range(3) for k in ([1], [4], [2], [3])]
-    cfgs = [('2.3', 1, 1011), ('2.0', 0, 999)] if not full else \
-        [('2.3', 1, 1011), ('2.0', 0, 999), ('2.1', 2, 1011), ('2.4', 4, 3011)]
+    cfgs = [('2.3', 1, 1011, 2, 1), ('2.0', 0, 999, 0, 0)] if not full else \
+        [('2.3', 1, 1011, 2, 1), ('2.0', 0, 999, 0, 0), ('2.1', 2, 1011, 3, 0)]
     for n in range(depth + 1):
         for ops in itertools.product(OPS_SMALL, repeat=n):
             for catches in itertools.product([0, 1], repeat=n):
@@ -604,6 +721,8 @@ def main(ctx):
     ex = small_cases(2 if quick else 3, not quick)
     if quick:
         ex = ctx.rng.sample(ex, min(len(ex), 6000))
+    elif len(ex) > 400000:
+        ex = ctx.rng.sample(ex, 400000)
     else:
         ctx.cov['exhaustive'] = False
     # interleave so that a deadline cut keeps both kinds
